@@ -57,6 +57,10 @@ type retPop struct {
 	items    []retItem
 	maxAge   int32
 	fileName string
+	// skew != 0: the writes are Append calls of events whose OWN timestamp is ahead of (behind) the clock by skew
+	// (a TimeNow hook on another clock, a replayed event): the cut-off is still "now - max age" on the
+	// clock that stamps the files, not on the event
+	skew time.Duration
 }
 
 var (
@@ -113,6 +117,9 @@ func retPopulations(tier string) []retPop {
 func (p retPop) desc() string {
 	var sb strings.Builder
 	fmt.Fprintf(&sb, "appender=%s maxAge=%dh:", p.fileName, p.maxAge)
+	if p.skew != 0 {
+		fmt.Fprintf(&sb, " [Append, event time = clock%+v]", p.skew)
+	}
 	for _, it := range p.items {
 		fmt.Fprintf(&sb, " %s@cutoff%+v", strings.Replace(retAlphabet[it.entry].name, "%s", p.fileName, 1), retAges[it.age])
 	}
@@ -141,6 +148,16 @@ func retScenario(p retPop, b zzvrt.Bounds) *zzvrt.Scenario {
 		Body: func() {
 			x := zzvrt.Cur()
 			a := &log.RollingFileAppender{FileDir: rollDir, FileName: p.fileName, Rotation: log.TimeRotation{Interval: time.Hour}, MaxAge: p.maxAge}
+			if p.skew != 0 {
+				a.Layout = &log.TextLayout{BaseLayout: log.BaseLayout{FileLineLength: 48}}
+			}
+			write := func(id string) {
+				if p.skew == 0 {
+					a.Write([]byte(id + "\n"))
+					return
+				}
+				a.Append(&log.Event{Level: log.InfoLevel, Time: x.Now.Add(p.skew), Tag: "_t", Fields: []log.Field{log.Msg(id)}})
+			}
 			zzvrt.Atomic(func() {
 				x.FS.MkdirAll(rollDir)
 				for _, e := range ents {
@@ -160,8 +177,8 @@ func retScenario(p retPop, b zzvrt.Bounds) *zzvrt.Scenario {
 			if errS != "" {
 				return
 			}
-			a.Write([]byte("a0\n")) // rotates, spawns the cleanup
-			a.Write([]byte("a1\n")) // races with the cleanup
+			write("a0") // rotates, spawns the cleanup
+			write("a1") // races with the cleanup
 			zzvrt.WaitQuiescent()
 			a.Stop()
 		},
@@ -217,6 +234,14 @@ func init() {
 		Make: func(tier string, i int) *zzvrt.Scenario {
 			b := zzvrt.Bounds{Preempt: 1, Horizon: 5000}
 			return retScenario(retPopulations(tier)[i], b)
+		}})
+	// every third population once more with Append calls whose event time runs ahead of (behind) the clock
+	registerFamily(Fam{Prop: "C14", Name: "c14/populations-append-skewed", Tiers: "qt",
+		Count: func(tier string) int { return len(retPopulations(tier)) / 3 },
+		Make: func(tier string, i int) *zzvrt.Scenario {
+			p := retPopulations(tier)[3*i]
+			p.skew = []time.Duration{90 * time.Minute, 36 * time.Hour, -3 * time.Hour}[i%3]
+			return retScenario(p, zzvrt.Bounds{Preempt: 1, Horizon: 5000})
 		}})
 }
 
